@@ -93,6 +93,11 @@ func build(c Case) (*openapi3.T, error) {
 	raw := kinx.Doc(paths, nil)
 	switch c.Server {
 	case "none":
+	case "multi:/v1,/v10":
+		// two servers, the first a plain string prefix of the second (not at a segment boundary)
+		raw["servers"] = []any{M{"url": "/v1"}, M{"url": "/v10"}}
+	case "multi:/v10,/v1":
+		raw["servers"] = []any{M{"url": "/v10"}, M{"url": "/v1"}}
 	case "/api/{ver}":
 		raw["servers"] = []any{M{"url": "/api/{ver}", "variables": M{"ver": M{"default": "v2"}}}}
 	default:
@@ -104,6 +109,8 @@ func build(c Case) (*openapi3.T, error) {
 // basePathRe: the server's base path as a pattern ("" when the server cannot match the request at all)
 func basePattern(server string) *regexp.Regexp {
 	switch server {
+	case "multi:/v1,/v10", "multi:/v10,/v1":
+		return regexp.MustCompile(`^/v1(0)?`)
 	case "none":
 		return regexp.MustCompile(`^`)
 	case "/v1":
@@ -308,11 +315,15 @@ func check(c Case) (o h.Outcome) {
 
 var tplPool = []string{"/a", "/a/{x}", "/a/b", "/{x}", "/{x}/b", "/a/{x}/b", "/a/{x}/{y}", "/{x}/{y}", "/b/{y}", "/b", "/a/b/c", "/a/{x}/c", "/{x}/b/{y}", "/a/b/{y}", "/a/p-{x}", "/a/p-b", "/a/{x}.json", "/a/b.json"}
 var methodSets = [][]string{{"GET"}, {"POST"}, {"GET", "POST"}, {"GET", "PUT", "DELETE"}}
-var servers = []string{"none", "/v1", "/api/{ver}", "http://h.example/base"}
+var servers = []string{"none", "/v1", "/api/{ver}", "http://h.example/base", "multi:/v1,/v10", "multi:/v10,/v1"}
 var values = []string{"1", "abc", "a.b", "x-y_z~", "b", "a"}
 
 func baseOf(server string) string {
 	switch server {
+	case "multi:/v1,/v10":
+		return "/v10" // requests go to the second server
+	case "multi:/v10,/v1":
+		return "/v1"
 	case "none":
 		return ""
 	case "/v1":
